@@ -29,6 +29,8 @@ import (
 	"verifharness/vh"
 )
 
+const frameAttack = 1000 // pseudo command code: a hand-made mux frame
+
 const (
 	goodUser = "fred"
 	goodHash = "ph-5e1f-secret"
@@ -401,6 +403,7 @@ type req struct {
 	body    []byte
 	noResp  bool
 	marker  string
+	frame   string // "" = a normal message; otherwise a hand-made mux frame
 }
 
 // do sends one request on rc and records it
@@ -412,7 +415,22 @@ func (w *world) do(rc *rawc, sid uint32, q req) (cls string, body []byte) {
 	msg := append([]byte{byte(q.code)}, q.body...)
 	res := 0
 	errmsg := ""
-	if err := rc.r.Send(sid, msg); err != nil {
+	var err error
+	switch q.frame {
+	case "":
+		err = rc.r.Send(sid, msg)
+	case "empty": // a message of 0 bytes
+		err = rc.r.SendFrame(sid, nil, 1, 0)
+	case "badfinal": // final byte neither 0 nor 1
+		err = rc.r.SendFrame(sid, msg, 2, len(msg))
+	case "oversize": // header announces more than the 1 MB limit
+		err = rc.r.SendFrame(sid, msg, 1, 1024*1024+1+w.rnd.Intn(1000))
+	case "partial-then-final": // two frames, the first not final and empty
+		if err = rc.r.SendFrame(sid, nil, 0, 0); err == nil {
+			err = rc.r.SendFrame(sid, msg, 1, len(msg))
+		}
+	}
+	if err != nil {
 		cls = "closed"
 	} else if q.noResp {
 		cls = "none"
@@ -439,7 +457,6 @@ func (w *world) do(rc *rawc, sid uint32, q req) (cls string, body []byte) {
 			ch <- rr{resp, err}
 		}()
 		var resp []byte
-		var err error
 		fatal := false
 		select {
 		case x := <-ch:
@@ -754,6 +771,15 @@ func (w *world) rawStep(rc *rawc, code int) {
 		return
 	}
 	sid := uint32(1 + w.rnd.Intn(3))
+	if code == frameAttack {
+		fr := w.pick("empty", "badfinal", "oversize", "partial-then-final")
+		q := req{code: 255, variant: "frame-" + fr, cr: noCred, frame: fr}
+		if fr == "partial-then-final" {
+			q.code, q.variant = int(commands.Final), "frame-"+fr
+		}
+		w.do(rc, sid, q)
+		return
+	}
 	q := w.wellFormed(rc, code)
 	if w.rnd.Intn(6) == 0 && code != int(commands.EndSession) {
 		q = w.garble(q)
@@ -784,7 +810,7 @@ func (w *world) scenario(steps, s int) {
 	for c := 0; c < len(cmdNames)+1; c++ {
 		sweep = append(sweep, c)
 	}
-	sweep = append(sweep, 41+w.rnd.Intn(200))
+	sweep = append(sweep, 41+w.rnd.Intn(200), frameAttack, frameAttack)
 	w.rnd.Shuffle(len(sweep), func(i, j int) { sweep[i], sweep[j] = sweep[j], sweep[i] })
 	for i := 0; i < steps; i++ {
 		switch k := w.rnd.Intn(20); {
